@@ -166,9 +166,13 @@ def corr_mat(ctx, zs):
     for z in zs:
         el = element(z)
         e = float(10 ** ctx.rng.uniform(0.5, 5)); w = float(10 ** ctx.rng.uniform(-0.3, 2))
-        for kind, vec, mat in (("ei", ebisim.eixs_vec(el, e), ebisim.eixs_mat(el, e)),
-                               ("rec", ebisim.rrxs_vec(el, e), ebisim.rrxs_mat(el, e)),
-                               ("rec", ebisim.drxs_vec(el, e, w), ebisim.drxs_mat(el, e, w))):
+        cases = [("ei", ebisim.eixs_vec(el, e), ebisim.eixs_mat(el, e)), ("rec", ebisim.rrxs_vec(el, e), ebisim.rrxs_mat(el, e)),
+                 ("rec", ebisim.drxs_vec(el, e, w), ebisim.drxs_mat(el, e, w))]
+        if el.dr_e_res.size:   # on resonances of the lowest, the highest and a random tabulated charge state
+            for row in {int(np.argmin(el.dr_cs)), int(np.argmax(el.dr_cs)), int(ctx.rng.integers(el.dr_cs.size))}:
+                er = float(el.dr_e_res[row])
+                cases.append(("rec", ebisim.drxs_vec(el, er, w), ebisim.drxs_mat(el, er, w)))
+        for kind, vec, mat in cases:
             m = D.floats(f"mat {kind} " + farr(vec))
             ctx.evaluations += 1
             ctx.seen(("mat", kind, z, e))
